@@ -27,13 +27,17 @@ from ..tlc import MachineryError, parse_value, run_tlc, scratch_dir
 
 PID = "C01"
 ATTACKER_SRC = ("6.6.6.6", 6666)
+OTHER_SRC = ("7.7.7.7", 7777)       # a third address: neither the honest sender's nor the adversary's
 CLASS_NAMES = ["DiscoveryCommunity", "DHTCommunity", "DHTDiscoveryCommunity", "TunnelCommunity",
                "HiddenTunnelCommunity", "PexCommunity", "IdentityCommunity", "AttestationCommunity"]
 MC_ACTIONS = ["Send", "InjectAny", "Noop", "FlipPrefix", "FlipMsgId", "FlipKey", "SubstKeyKeepSig", "FlipBody",
               "FlipSig", "Truncate", "StripAuth", "Extend", "Resign", "SpliceBody", "SpliceSig", "Run", "Drop"]
+HIST_ACTIONS = ["Send", "InjectAny", "Noop", "FlipKey", "SubstKeyKeepSig", "FlipSig", "Resign", "Run", "Drop",
+                "Acquaint", "Restart"]
 NO_CONTENT = {"prefix": "p?", "msgid": 256, "key": "nokey", "body": "b?"}
 NO_SIG = {"kind": "none", "signer": "nokey", "covers": NO_CONTENT}
 GARBAGE = {"kind": "garbage", "signer": "nokey", "covers": NO_CONTENT}
+BLANK = dict(NO_CONTENT, sig=NO_SIG)
 
 
 # =====================================================================================================
@@ -74,6 +78,9 @@ class World:
             self.keys[name] = k
             self.pubs[name] = k.pub().key_to_bin()
             self.keyname[k.pub().key_to_bin()] = name
+        # public keys of strangers (nobody the receiver ever met, private halves thrown away): abstract key "kx"
+        self.strangers = {True: self.ec.generate_key("curve25519").pub().key_to_bin(),
+                          False: self.ec.generate_key("very-low").pub().key_to_bin()}
 
     def new_net(self, drop_all=False):
         net = self.simnet.attach(self.loop, self.simnet.SimNet(self.loop))
@@ -169,11 +176,26 @@ class Receiver:
         nw = self.ov.network
         return set(nw.verified_by_public_key_bin) | {p.public_key.key_to_bin() for p in nw.verified_peers}
 
-    def deliver(self, data, src):
-        """-> dict(entered: [(handler name, peer)], sent: n, newv: [key bins], crashed: str|None)"""
+    def book(self):
+        """The verified-peer table as {key bin: frozenset of (ip, port)}: where the node believes each key lives."""
+        nw = self.ov.network
+        out = {}
+        for p in list(nw.verified_peers) + list(nw.verified_by_public_key_bin.values()):
+            addrs = {tuple(a) for a in p.addresses.values()}
+            pref = tuple(p.address)
+            if pref != ("0.0.0.0", 0):
+                addrs.add(pref)
+            kb = p.public_key.key_to_bin()
+            out[kb] = frozenset(addrs) | out.get(kb, frozenset())
+        return out
+
+    def deliver(self, data, src, keep=False):
+        """-> dict(entered: [(handler name, peer)], sent: n, newv: [key bins], crashed: str|None, book: table after)
+        keep = the receiver lives on with whatever the delivery did to it (sessions: histories of deliveries)"""
         del SPYLOG[:]
         w0 = len(self.net.wire)
         v0 = self.verified()
+        b0 = self.book()
         crashed = None
         try:
             self.node.sim_endpoint.notify_listeners((self.w.simnet.UDPv4Address(*src), bytes(data)))
@@ -184,9 +206,11 @@ class Receiver:
         entered = [(name, peer) for (o, name, peer) in SPYLOG if o is self.ov]
         sent = len(self.net.wire) - w0
         newv = sorted(self.verified() - v0)
-        out = {"entered": entered, "sent": sent, "newv": newv, "crashed": crashed}
-        if entered or sent or newv or SPYLOG:
+        b1 = self.book()
+        out = {"entered": entered, "sent": sent, "newv": newv, "crashed": crashed, "book": b1, "rebuilt": False}
+        if (entered or sent or newv or SPYLOG or b1 != b0) and not keep:
             self.build()      # never reuse a receiver whose state a delivery has touched
+            out["rebuilt"] = True
         return out
 
     def close(self):
@@ -309,6 +333,13 @@ def capture_corpus(world, cname, auth_ids, per_id):
     sender_of = {n.sim_endpoint: kn for n, kn in zip(ns, ("h1", "h2", "h3"))}
     prefix = a.get_prefix()
     by_id = {}
+    intros = {}       # honest sender -> (a valid introduction-request of his, the address it came from): histories
+    for dg in net.wire:
+        if dg.data[:22] == prefix and len(dg.data) > 23 and dg.data[22] == 246 and dg.sender in sender_of:
+            intros.setdefault(sender_of[dg.sender], (dg.data, tuple(dg.src)))
+    for ov, kn, n in ((a, "h1", ns[0]), (b, "h2", ns[1]), (c, "h3", ns[2])):
+        if kn not in intros:
+            intros[kn] = (ov.create_introduction_request(w.simnet.UDPv4Address("80.9.9.9", 8090)), tuple(n.address))
     for dg in net.wire:
         if dg.data[:22] == prefix and len(dg.data) > 23 and dg.data[22] in auth_ids and dg.sender in sender_of:
             by_id.setdefault(dg.data[22], []).append(
@@ -346,7 +377,13 @@ def capture_corpus(world, cname, auth_ids, per_id):
     pool = [cp for caps in by_id.values() for cp in caps]
     for ov in (a, b, c):
         w.loop.run_until_complete(ov.unload())
-    return chosen, pool
+    # the adversary is an ordinary participant too: his own, valid introduction-request from his own address
+    for kn in ("att", "att2"):
+        n = w.nodes.Node(w.new_net(drop_all=True), key=w.keys[kn], ip=ATTACKER_SRC[0], port=ATTACKER_SRC[1])
+        ov = n.add(cls, **kw)
+        intros[kn] = (ov.create_introduction_request(w.simnet.UDPv4Address("80.9.9.9", 8090)), ATTACKER_SRC)
+        w.loop.run_until_complete(ov.unload())
+    return chosen, pool, intros
 
 
 # =====================================================================================================
@@ -410,8 +447,9 @@ def verifies(pk, data, siglen):
 class Abstractor:
     """Concrete bytes -> the abstract datagram of Auth.tla, relative to one base capture (and one splice donor)."""
 
-    def __init__(self, world, prefix_names, base, donor=None):
+    def __init__(self, world, prefix_names, base, donor=None, orig_src=None):
         self.w, self.prefix_names = world, prefix_names
+        self.orig_src = tuple(orig_src) if orig_src is not None else None
         self.base_p = parse(base)
         self.donor_p = parse(donor) if donor is not None else None
         self.base_d = None
@@ -458,6 +496,21 @@ class Abstractor:
         d["sig"] = sig
         return d
 
+    def addrname(self, addr):
+        """Abstract address of Auth.tla: where the honest sender of the base capture lives, the adversary's, other."""
+        t = tuple(addr)
+        return "a_orig" if t == self.orig_src else "a_att" if t == tuple(ATTACKER_SRC) else "a_x"
+
+    def bookabs(self, book, final=None):
+        """Network.verified_peers (key bin -> addresses) -> sorted [[key name, address name], ...]"""
+        carried = parse(final).keybytes if final is not None else None
+        out = set()
+        for kb, addrs in book.items():
+            kn = self.w.keyname.get(kb) or ("kx" if kb == carried or kb in self.w.strangers.values() else "ky")
+            for a in addrs:
+                out.add((kn, self.addrname(a)))
+        return [list(x) for x in sorted(out)]
+
     def peername(self, peer, data):
         """Name of the key of the Peer object the handler received."""
         try:
@@ -478,12 +531,18 @@ def varlen_key(kb):
 
 
 class Recipe:
-    __slots__ = ("steps", "src", "target", "state")
+    __slots__ = ("steps", "src", "target", "state", "valid", "core")
 
-    def __init__(self, steps, src="att", target=None):
+    def __init__(self, steps, src="att", target=None, valid=False, core=False):
         self.steps = steps      # [(mutation name, bytes, signer hint)]  each applied on top of the previous one
-        self.src = src          # "orig" | "att"
+        self.src = src          # "orig" | "att" | "other" : the source address the datagram is delivered from
         self.target = target    # overlay class that receives it (None = the class of the capture)
+        self.valid = valid      # carries a valid signature of its carried key (sessions deliver these last)
+        self.core = core        # forgery families that sessions deliver again after the valid ones
+
+
+def src_addr(r_src, cap):
+    return cap.src if r_src == "orig" else OTHER_SRC if r_src == "other" else ATTACKER_SRC
 
 
 def mutations(w, cap, donor, tier, rng, state, other_prefixes, registered, light):
@@ -491,7 +550,7 @@ def mutations(w, cap, donor, tier, rng, state, other_prefixes, registered, light
     d = cap.data
     p = parse(d)
     n, bs, S = p.n, p.bstart, p.siglen
-    out = [Recipe([("Noop", d, None)], "orig"), Recipe([("Noop", d, None)], "att")]
+    out = [Recipe([("Noop", d, None)], "orig", valid=True), Recipe([("Noop", d, None)], "att", valid=True)]
     curve25519 = p.keybytes.startswith(b"LibNaCLPK:")
     att = "att" if curve25519 else "att2"
     attkey = w.keys[att]
@@ -517,25 +576,36 @@ def mutations(w, cap, donor, tier, rng, state, other_prefixes, registered, light
     out.append(Recipe([("FlipBody", d + d[n - S:], None)]))      # the old signature again behind the datagram
     # (d) whole-signature replacements
     for filler in (b"\x00" * S, b"\xff" * S, bytes(rng.randrange(256) for _ in range(S))):
-        out.append(Recipe([("FlipSig", d[:n - S] + filler, None)]))
+        out.append(Recipe([("FlipSig", d[:n - S] + filler, None)], core=filler[:1] == b"\x00"))
+    out.append(Recipe([("FlipSig", d[:n - S] + bytes(rng.randrange(256) for _ in range(S)), None)], "other"))
     # (e) key substitution, signature kept (same curve: same lengths)
     for kn in ("h1", "h2", "h3", "rcv", att):
         kb = w.keys[kn].pub().key_to_bin()
         if kb != p.keybytes and kb.startswith(b"LibNaCLPK:") == curve25519:
-            out.append(Recipe([("SubstKeyKeepSig", d[:23] + varlen_key(kb) + d[bs:], None)]))
+            out.append(Recipe([("SubstKeyKeepSig", d[:23] + varlen_key(kb) + d[bs:], None)], core=kn == att))
     # (f) signature from another key over the unchanged content
-    out.append(Recipe([("Resign", d[:n - S] + attkey.signature(d[:n - S]), att)]))
+    out.append(Recipe([("Resign", d[:n - S] + attkey.signature(d[:n - S]), att)], core=True))
+    out.append(Recipe([("Resign", d[:n - S] + attkey.signature(d[:n - S]), att)], "orig"))
+    out.append(Recipe([("Resign", d[:n - S] + attkey.signature(d[:n - S]), att)], "other"))
     # (g) the adversary's own, valid message: key substituted AND re-signed (handler may run, peer = attacker)
     sub = d[:23] + varlen_key(attkey.pub().key_to_bin()) + d[bs:n - S]
     own = sub + attkey.signature(sub)
-    out.append(Recipe([("SubstKeyKeepSig", sub + d[n - S:], None), ("Resign", own, att)]))
-    out.append(Recipe([("SubstKeyKeepSig", sub + d[n - S:], None), ("Resign", own, att)], "orig"))   # spoofed source address
+    out.append(Recipe([("SubstKeyKeepSig", sub + d[n - S:], None), ("Resign", own, att)], valid=True))
+    out.append(Recipe([("SubstKeyKeepSig", sub + d[n - S:], None), ("Resign", own, att)], "orig", valid=True))   # spoofed source address
     # (h) altered body, then re-signed by the adversary under the honest key's name
     if n - S > bs:
         fb = bytearray(d)
         fb[bs + (n - S - bs) // 2] ^= 0x10
         fb = bytes(fb)
-        out.append(Recipe([("FlipBody", fb, None), ("Resign", fb[:n - S] + attkey.signature(fb[:n - S]), att)]))
+        out.append(Recipe([("FlipBody", fb, None), ("Resign", fb[:n - S] + attkey.signature(fb[:n - S]), att)],
+                          core=True))
+    # (h') the key of a stranger (nobody the receiver ever met) in the header, signed by the adversary's own key
+    wkb = w.strangers[curve25519]
+    if len(wkb) == len(p.keybytes):
+        named = d[:23] + varlen_key(wkb) + d[bs:n - S]
+        for src in ("att", "orig"):
+            out.append(Recipe([("FlipKey", named + d[n - S:], None), ("Resign", named + attkey.signature(named), att)],
+                              src, core=src == "att"))
     # (i) splices with a second honest datagram of the same overlay
     if donor is not None:
         q = parse(donor.data)
@@ -561,7 +631,7 @@ def mutations(w, cap, donor, tier, rng, state, other_prefixes, registered, light
     return out
 
 
-def observe(ab, steps, final, res, target, auth_table):
+def observe(ab, steps, final, res, target, auth_table, src):
     """What the driver logs for one delivery: the abstract mutation steps and the deliver event."""
     steps_ev, frm = [], "base"
     for (name, data, hint) in steps:
@@ -580,26 +650,30 @@ def observe(ab, steps, final, res, target, auth_table):
         peer = newv[0] if newv else dfin["key"]
     elif not is_auth and (res["sent"] or newv):
         entered = True
-    return steps_ev, {"k": "deliver", "o": target, "entered": entered, "peer": peer, "newv": newv}
+    return steps_ev, {"k": "deliver", "o": target, "entered": entered, "peer": peer, "newv": newv,
+                      "src": ab.addrname(src), "book": ab.bookabs(res["book"], final)}
 
 
-def head_events(ab, cname, donor_cname):
-    """send of the splice donor (if it is a valid honest datagram) and send / inject of the base capture"""
-    def valid(d):
-        return d["sig"]["kind"] == "sig" and d["sig"]["signer"] == d["key"] and \
-            d["sig"]["covers"] == {k: d[k] for k in ("prefix", "msgid", "key", "body")}
-    events = []
+def abs_valid(d):
+    return d["sig"]["kind"] == "sig" and d["sig"]["signer"] == d["key"] and \
+        d["sig"]["covers"] == {k: d[k] for k in ("prefix", "msgid", "key", "body")}
+
+
+def head_events(ab, cname, donor_cname, acquainted=()):
+    """acquaintances of the receiving overlays (history), send of the splice donor (if it is a valid honest
+    datagram) and send / inject of the base capture"""
+    valid = abs_valid
+    events = [{"k": "acq", "o": o, "key": key, "src": addr} for (o, key, addr) in acquainted]
     if ab.donor_d is not None and valid(ab.donor_d):
         events.append({"k": "send", "o": donor_cname, "d": ab.donor_d})
     events.append({"k": "send" if valid(ab.base_d) else "inject", "o": cname, "d": ab.base_d})
-    for e in events:
-        e.update({"name": "", "from": "base", "entered": False, "peer": "nokey", "newv": []})
-    return events
+    return [full(e, cname, "base") for e in events]
 
 
-def full(e, target):
+def full(e, target, frm="cur"):
     e = dict(e)
-    for k, v in (("o", target), ("entered", False), ("peer", "nokey"), ("newv", []), ("name", ""), ("from", "cur")):
+    for k, v in (("o", target), ("entered", False), ("peer", "nokey"), ("newv", []), ("name", ""), ("from", frm),
+                 ("src", "a_x"), ("book", []), ("key", "nokey"), ("d", BLANK)):
         e.setdefault(k, v)
     return e
 
@@ -616,7 +690,7 @@ def class_job(args):
     if limit_ids:
         auth_ids &= set(limit_ids)
     per_id = 1 if tier == "quick" else 3
-    chosen, pool = capture_corpus(w, cname, auth_ids, per_id)
+    chosen, pool, intros = capture_corpus(w, cname, auth_ids, per_id)
     # names of the real prefixes according to the protocol table (overlays sharing a community id share a name)
     prefix_names = {}
     for cn in CLASS_NAMES:
